@@ -50,9 +50,16 @@ def fr(q):
     return Fraction(q[0], q[1])
 
 
+_NUMFORM = [0]
+
+
 def num(q):
+    """the value in one of the numeric types a caller may pass (Python int/float, numpy scalars)"""
     f = fr(q)
-    return int(f) if f.denominator == 1 else float(f)
+    _NUMFORM[0] += 1
+    if f.denominator == 1:
+        return (int(f), float(f), np.int64(int(f)), np.float64(float(f)))[_NUMFORM[0] % 4]
+    return (float(f), np.float64(float(f)))[_NUMFORM[0] % 2]
 
 
 def type_code(typ):
